@@ -255,7 +255,9 @@ def generate(rng, n, tier, pid):
             e = malformed(rng, pmi, pms)
             out.append("P P E D X" + hexs(e) + " " + " ".join(dec_ops(rng, len(e))))
             continue
-        big = tier == "thorough" or i % 40 == 0
+        # production-size messages are expensive on both sides (hundreds of KB of observations each): every 40th production
+        # case may be one in the quick tier, every 10th in the thorough tier
+        big = i % (40 if tier == "quick" else 10) == 0
         ln = rng.weighted([(6, rng.below(40)), (6, rng.range(pmi - 4, pmi + 5)), (3, rng.below(1200)),
                            (2 if big else 0, rng.range(pms - 8, pms + 8)), (2 if big else 0, rng.range(pmi + pms - 6, pmi + pms + 8)),
                            (1 if big else 0, rng.range(pmi + 2 * pms - 8, pmi + 2 * pms + 8))])
